@@ -17,7 +17,7 @@ MANIFEST = {
                  "replace_and_simplify / DeMorganSimplifier / PostfixLogicBuilder / LogicStack / "
                  "InternalSurfaceFlagger; differential correspondence model vs real classes on "
                  "structured op scripts; exhaustive truth-table oracle on the real code",
-    "text": "Theorems over the model (Props/C10.lean, 22 obligations) for all trees, nodes and "
+    "text": "Theorems over the model (Props/C10.lean, 26 obligations) for all trees, nodes and "
             "sense assignments, no size bound: (a) the 32-bit LogicStack evaluator refines the "
             "list-stack reference for every well-formed logic with calc_max_depth <= 32 (bound "
             "shown sharp at 33), calc_max_depth bounds the stack at every point; (b) the logic "
@@ -31,9 +31,15 @@ MANIFEST = {
             "replace_and_simplify raises no contradiction and keeps every value on every "
             "assignment with key = value; (f) a node flagged `simple` is a constant times a "
             "conjunction of surface literals when no negation points at an alias (hypothesis "
-            "shown necessary). NOT proved: (e) transform_negated_joins (De Morgan) - modelled "
-            "statement by statement, tied by correspondence and checked by the truth-table oracle "
-            "only; the `denote` forms of (c4)/(d) keep `Sorted t'` as a hypothesis (..._partial). "
+            "shown necessary); (e) transform_negated_joins (De Morgan): whenever it returns, the new "
+            "tree satisfies the invariant, volume k denotes what volume k of the original denotes "
+            "under every assignment and no negation of a join remains (induction over node ids "
+            "with an explicit old->new id-map invariant; per-node lemma deMorgan_step_sound). NOT "
+            "proved: that De Morgan's compiled-out assertions never fail under the documented "
+            "precondition (model answers `error assert`, treated as broken correspondence; never "
+            "observed); order preservation and termination of whole-tree sweeps (the `denote` "
+            "forms of (c4)/(d) keep `Sorted t'` as a hypothesis, ..._partial; sweep budget "
+            "4*size+16 never exhausted in the runs). "
             "Logic token values, stack width, NodeRepl lattice order, special node ids and the text "
             "of calc_max_depth / LogicStack operations are regenerated or pattern-checked from the "
             "source each run. The hand-written model is tied to the real code by an exact diff of "
@@ -1194,6 +1200,13 @@ def _finding_reproduces(key, out):
     if key == "exchange-cycle":
         m = [a for a, b in re.findall(r" (\d+):>(\d+)", out[-1]) if a == b]
         return bool(m), "self-aliased nodes " + ",".join(m) if m else out[-1][:120]
+    if key == "simplify-start-order":
+        body = out[-1].split("#")[1].split(" vols")[0] if "#" in out[-1] else ""
+        bad = []
+        for i, txt in re.findall(r" (\d+):(\S+)", body):
+            if txt[0] in ">~&|":
+                bad += [i for c in re.findall(r"\d+", txt) if int(c) >= int(i)]
+        return bool(bad), ("nodes mentioning a higher id: " + ",".join(bad)) if bad else body[:120]
     return False, "unknown finding key"
 
 
@@ -1202,6 +1215,9 @@ FINDING_TEXT = {
                           "(not an intersection of half-spaces); contradicts the property unless "
                           "no negation points at an alias (theorem flagSimple_sound hypothesis "
                           "NoNegAlias; witness flag_unsound_with_negated_alias)",
+    "simplify-start-order": "simplify(tree, start) with unsimplified nodes below `start` leaves a "
+                            "node aliased to a higher node (documented topological order broken, "
+                            "values preserved; witness simplifyAll_can_break_order)",
     "exchange-cycle": "CsgTree::exchange with a logically equivalent node makes a node an alias of "
                       "itself through the swap-with-higher-duplicate branch and a stale dedup key "
                       "(theorem exchange_preserves hypothesis SwapSafe; witness "
@@ -1251,7 +1267,13 @@ def run(ctx):
     quick = ctx.quick()
     rng = ctx.rng
     ps = common.proof_side(ctx, "C10")
-    broken = list(ps["broken"])
+    # only the `csg` extractor feeds Generated/CsgConsts.lean, the one generated file the C10
+    # theorems import; a failing extractor of another property is that property's business
+    broken = [b for b in ps["broken"]
+              if not b.startswith("translator: ") or b.startswith("translator: csg")]
+    foreign = [b for b in ps["broken"] if b not in broken]
+    if foreign:
+        ctx.notes.append("ignored translator errors of other properties: " + "; ".join(foreign)[:400])
     ctx.assumptions += [
         "model of CsgTree/NodeSimplifier/CsgTreeUtils/NodeReplacer/DeMorganSimplifier/"
         "PostfixLogicBuilder/InfixStringBuilder/InternalSurfaceFlagger/LogicStack/calc_max_depth is "
@@ -1297,7 +1319,7 @@ def run(ctx):
         pass        # already reported by proof_side
 
     # ---------------- scripts: corpus, malformed, then generated against the live harness
-    n_scripts = 2000 if quick else 24000
+    n_scripts = 2000 if quick else 20000
     chunk_size = 500
     live = Live(exe)
     model = [vlib.model_exe("C10")] if ps["model_ok"] else None
